@@ -93,6 +93,20 @@ def check_pair(prog, fname, linked_ref, linked_cand, *, harness, inst, extra_pre
             res["errors"].append(f"harness exception {type(p.value).__name__}: {p.value}")
             continue
         a, b = p.value
+        if isinstance(a[0], Failure) and isinstance(b[0], Failure) and a[0].kind == b[0].kind and a[0].kind not in ("ZeroDivisionError", "IndexError"):
+            # both builds fail alike with something that is not a defined run-time failure: agreement only if the failure is real -- a failure
+            # the proxies cause (a shim gap) would hide any difference between the builds
+            rr, mm = eng.query(pre, p.pc, z3.BoolVal(True), timeout_ms=query_timeout_ms)
+            if rr == "sat":
+                vals0 = unit.model_values(mm)
+                try:
+                    with shims.no_vm_shims():
+                        joint.vm_run(linked_ref, fname, joint.concrete_inputs(f.params, vals0, structs=prog.structs),
+                                     joint.concrete_inputs(prog.globals, vals0, prefix="g_", structs=prog.structs), gnames)
+                    res["errors"].append(f"both builds fail with {a[0].kind} ({str(a[0].exc)[:80]}) on symbolic inputs but the concrete run {vals0} succeeds (proxy / shim gap): nothing claimed")
+                    continue
+                except Exception:  # noqa: BLE001 -- the failure is real
+                    pass
         bad = outcome_differs(a, b, gnames)
         if isinstance(bad, bool):
             bad = z3.BoolVal(bad)
